@@ -3,6 +3,7 @@
 From Coq Require Import List NArith Bool Arith Sorted.
 From Coq Require Import Lia ZifyN ZifyNat ZifyBool.
 From V Require Import C18.Model C18.Proofs C18.Proofs_BT C18.Proofs_Resume C18.Proofs_SDL C18.Proofs_Io.
+From V Require Import C18.Proofs_ResumeV C18.Proofs_SdlRun C18.Proofs_SdlMig C18.Proofs_HeadState C18.Proofs_HeadStateMig C18.Proofs_Registry.
 Import ListNotations.
 
 (* A migration is recorded as applied only after its Migrate returned (nil, nil): in the event log
@@ -191,6 +192,212 @@ Theorem C18_statedifflength_resume_after_prune : forall (p : nat) (bs : list sbl
 Proof. exact sdl_resume_after_prune_lemma. Qed.
 Print Assumptions C18_statedifflength_resume_after_prune.
 
+(* ======================================================================================== *)
+(* statedifflength at batch granularity (Sdl.v). An ATTEMPT is one Migrate call: the batches   *)
+(* that were written (any lists of block numbers, any order) and how it ended (done,          *)
+(* checkpoint n, error, process death). sdl_attempt_ok = "the code can produce it".            *)
+(* ======================================================================================== *)
+
+(* Data preservation, for EVERY sequence of producible attempts from any database with a safe
+   checkpoint: the state updates / pruned prefix are untouched (only the stored length field
+   changes), the stored checkpoint never exceeds the committed prefix (every retained block below
+   it carries its real length), and when the bit is set every retained block's StateDiffLength is
+   StateDiff.Length() — the database is exactly sdl_complete db0. *)
+Theorem C18_sdl_data_preserved : forall db0 ck0 l,
+  sdl_ck_ok db0 ck0 = true -> sdl_attempts_ok (sdl_init db0 ck0) l = true ->
+  let s := sdl_run (sdl_init db0 ck0) l in
+  map (option_map s_len) (sp_db s) = map (option_map s_len) db0 /\
+  sdl_ck_ok (sp_db s) (sp_ck s) = true /\
+  (sp_applied s = true -> sdl_done (sp_db s) = true /\ sp_db s = sdl_complete db0).
+Proof. exact sdl_data_preserved_lemma. Qed.
+Print Assumptions C18_sdl_data_preserved.
+
+(* Resume reaches the same final database: on a database of the shape the pruner leaves, the single
+   uninterrupted attempt is producible and sets the bit; every schedule of cancellations (checkpoints),
+   stage errors and crashes after any committed batch that ends with the bit set ends in the SAME
+   database; and from every reachable state that is not yet applied a completing run exists and
+   reaches it too. *)
+Theorem C18_sdl_resume_same_db : forall db0 l,
+  sdl_wf db0 = true -> sdl_attempts_ok (sdl_init db0 0) l = true ->
+  let s := sdl_run (sdl_init db0 0) l in
+  let u := sdl_uninterrupted 0 db0 in
+  sdl_attempt_ok 0 db0 u = true /\
+  sp_applied (sdl_apply (sdl_init db0 0) u) = true /\
+  (sp_applied s = true -> sp_db s = sp_db (sdl_apply (sdl_init db0 0) u)) /\
+  (sp_applied s = false ->
+     let u' := sdl_uninterrupted (sp_ck s) (sp_db s) in
+     sdl_attempt_ok (sp_ck s) (sp_db s) u' = true /\
+     sp_applied (sdl_apply s u') = true /\
+     sp_db (sdl_apply s u') = sp_db (sdl_apply (sdl_init db0 0) u)).
+Proof. exact sdl_resume_same_db_lemma. Qed.
+Print Assumptions C18_sdl_resume_same_db.
+
+(* (nil, nil) is returned only when the postcondition holds *)
+Theorem C18_sdl_complete_only_if_postcondition : forall ck db a,
+  sdl_ck_ok db ck = true -> sdl_attempt_ok ck db a = true -> sa_end a = SEDone ->
+  sdl_done (sdl_commits db (sa_batches a)) = true.
+Proof. exact attempt_done_post. Qed.
+Print Assumptions C18_sdl_complete_only_if_postcondition.
+
+(* a returned checkpoint lies within the committed prefix *)
+Theorem C18_sdl_checkpoint_within_committed_prefix : forall ck db a nx,
+  sdl_ck_ok db ck = true -> sdl_attempt_ok ck db a = true -> sa_end a = SECheckpoint nx ->
+  sdl_ck_ok (sdl_commits db (sa_batches a)) nx = true.
+Proof. exact attempt_checkpoint_ok. Qed.
+Print Assumptions C18_sdl_checkpoint_within_committed_prefix.
+
+(* an error (or a crash) writes no checkpoint and sets no bit *)
+Theorem C18_sdl_error_keeps_checkpoint : forall s a,
+  (sa_end a = SEError \/ sa_end a = SECrash) ->
+  sp_ck (sdl_apply s a) = sp_ck s /\ sp_applied (sdl_apply s a) = sp_applied s.
+Proof. exact sdl_error_keeps_checkpoint_lemma. Qed.
+Print Assumptions C18_sdl_error_keeps_checkpoint.
+
+(* the batch is the unit of interruption: the process dying after the j-th committed batch of a
+   producible attempt is itself a producible attempt (so the theorems above cover it), and its
+   database is the j-th element of the attempt's trace *)
+Theorem C18_sdl_crash_points_are_attempts : forall ck db a j,
+  sdl_attempt_ok ck db a = true ->
+  sdl_attempt_ok ck db {| sa_batches := firstn j (sa_batches a); sa_end := SECrash |} = true /\
+  sdl_commits db (firstn j (sa_batches a)) = nth j (db :: sdl_trace db (sa_batches a)) (sdl_commits db (sa_batches a)).
+Proof. exact sdl_crash_point_lemma. Qed.
+Print Assumptions C18_sdl_crash_points_are_attempts.
+
+(* as a migration of the runner model — one step = one committed batch, the environment env decides
+   which blocks share a batch, the commit order and how far the source is ahead when it sees the
+   cancellation — statedifflength is resumable in the sense of C18_resume_same_db_general *)
+Theorem C18_sdl_resumable : forall (env : sdl_env) (i : nat),
+  resumable_at (fun _ => sdl_complete) (fun _ db t => sdl_tok_ok db t = true) (fun db => sdl_wf db = true)
+               i (sdl_migration env).
+Proof. exact sdl_resumable_lemma. Qed.
+Print Assumptions C18_sdl_resumable.
+
+(* ======================================================================================== *)
+(* state/headstate at batch granularity (HeadState.v).                                         *)
+(* ======================================================================================== *)
+
+(* Data preservation: after ANY sequence of producible attempts (any batches, cancellations, stage
+   errors, crashes after any batch or between the three DeleteRanges) that ends with the bit set,
+   the database is hs_complete db0: the deprecated buckets are empty and the Contract records
+   represent exactly the legacy head state — same contracts, class hashes, nonces (missing = 0),
+   deployment heights; hence every function of that set (the state root: C01 proves the root is a
+   function of the key/value sets) has the same value. Contract storage is not touched by this
+   migration (not part of hsdb; the correspondence compares the full database dump). *)
+Theorem C18_headstate_data_preserved : forall db0 l,
+  hs_consistent db0 = true -> hs_attempts_ok (hs_init db0) l = true ->
+  let s := hs_run (hs_init db0) l in
+  hp_applied s = true ->
+  hp_db s = hs_complete db0 /\ hs_wiped (hp_db s) = true /\
+  hs_new_view (hp_db s) = hs_legacy_view db0 /\
+  (forall (F : Type) (root : list (N * (N * N * option N)) -> F),
+     root (hs_new_view (hp_db s)) = root (hs_legacy_view db0)).
+Proof. exact hs_data_preserved_lemma. Qed.
+Print Assumptions C18_headstate_data_preserved.
+
+Theorem C18_headstate_resume_same_db : forall db0 l,
+  hs_ok db0 = true -> hs_attempts_ok (hs_init db0) l = true ->
+  let s := hs_run (hs_init db0) l in
+  let u := hs_uninterrupted db0 in
+  hs_attempt_ok db0 u = true /\
+  hp_applied (hs_apply (hs_init db0) u) = true /\
+  hp_db (hs_apply (hs_init db0) u) = hs_complete db0 /\
+  (hp_applied s = true -> hp_db s = hp_db (hs_apply (hs_init db0) u)) /\
+  (hp_applied s = false ->
+     let u' := hs_uninterrupted (hp_db s) in
+     hs_attempt_ok (hp_db s) u' = true /\
+     hp_applied (hs_apply s u') = true /\
+     hp_db (hs_apply s u') = hp_db (hs_apply (hs_init db0) u)).
+Proof. exact hs_resume_same_db_lemma. Qed.
+Print Assumptions C18_headstate_resume_same_db.
+
+(* (nil, nil) only with the postcondition: buckets wiped, every contract has its record *)
+Theorem C18_headstate_complete_only_if_postcondition : forall db a,
+  hs_attempt_ok db a = true -> ha_end a = HEDone ->
+  let db' := hs_wipe (ha_wipes a) (hs_commits db (ha_batches a)) in
+  db' = hs_complete db /\ hs_wiped db' = true /\ every_contract_migrated db db' = true.
+Proof. exact hs_done_post_lemma. Qed.
+Print Assumptions C18_headstate_complete_only_if_postcondition.
+
+Theorem C18_headstate_error_keeps_token : forall s a,
+  (ha_end a = HEError \/ ha_end a = HECrash) ->
+  hp_tok (hs_apply s a) = hp_tok s /\ hp_applied (hs_apply s a) = hp_applied s.
+Proof. exact hs_error_keeps_token_lemma. Qed.
+Print Assumptions C18_headstate_error_keeps_token.
+
+Theorem C18_headstate_crash_points_are_attempts : forall db a,
+  hs_attempt_ok db a = true ->
+  (forall j, hs_attempt_ok db {| ha_batches := firstn j (ha_batches a); ha_wipes := 0; ha_end := HECrash |} = true) /\
+  (forall w, w <= ha_wipes a ->
+     hs_attempt_ok db {| ha_batches := ha_batches a; ha_wipes := w; ha_end := HECrash |} = true).
+Proof. exact hs_crash_point_lemma. Qed.
+Print Assumptions C18_headstate_crash_points_are_attempts.
+
+Theorem C18_headstate_resumable : forall (env : hs_env) (i : nat),
+  resumable_at (fun _ => hs_complete) (fun _ db t => hs_tok_ok db t = true) (fun db => hs_ok db = true)
+               i (hs_migration env).
+Proof. exact hs_resumable_lemma. Qed.
+Print Assumptions C18_headstate_resumable.
+
+(* ======================================================================================== *)
+(* resume_same_db at the runner level, general form, and its instance for the node's registry. *)
+(* ======================================================================================== *)
+
+(* As C18_resume_same_db, but (1) every start may run a different registry, as long as all have
+   the same target version and are resumable for the same completion functions (this is how the
+   environment-dependent migrations enter: one registry per environment), and (2) resumability is
+   only required on databases satisfying an invariant ok that every step preserves. *)
+Theorem C18_resume_same_db_general :
+  forall (DB Tok : Type) (fuel : nat) (enabled T : N)
+         (spec : nat -> DB -> DB) (good : nat -> DB -> option Tok -> Prop) (ok : DB -> Prop),
+  (forall i db, ok db -> good i db None) ->
+  forall (bs : list (list (@migration DB Tok) * boot)) (es_ref es_fin : list (@migration DB Tok))
+         (s0 : @pstate DB Tok) st_ref st_fin,
+  ok (pdb s0) -> (forall j, lookup (inter s0) j = None) ->
+  Forall (fun eb => resumable_registry enabled T spec good ok (fst eb) /\ b_enabled (snd eb) = enabled) bs ->
+  resumable_registry enabled T spec good ok es_ref ->
+  resumable_registry enabled T spec good ok es_fin ->
+  run_boot es_ref fuel enabled no_intr s0 = (st_ref, ROk) ->
+  run_boot es_fin fuel enabled no_intr (run_schedule_v fuel bs s0) = (st_fin, ROk) ->
+  pdb (ms_p st_fin) = pdb (ms_p st_ref) /\
+  pdb (ms_p st_ref) = fold_left (fun d i => spec i d) (bits_of (vdiff T (cur s0))) (pdb s0) /\
+  bits_of (vdiff T (cur (ms_p st_fin))) = [] /\
+  bits_of (vdiff T (cur (ms_p st_ref))) = [].
+Proof. exact resume_same_db_v_lemma. Qed.
+Print Assumptions C18_resume_same_db_general.
+
+(* The node's registry [m0; m1; headstate; statedifflength] (node/migration.go) over one database
+   record. headstate and statedifflength are the models above, with an arbitrary environment at
+   every start; for them the resumability hypothesis is DISCHARGED. m0 (blocktransactions) and m1
+   (historyprunner) are arbitrary migrations over the whole record — m1 may prune the very block
+   list statedifflength reads — and stay hypothetical: they must be resumable and keep the
+   invariants hs_ok / sdl_wf of the other two components. Conclusion: every schedule of
+   cancellations, I/O errors, crashes and restarts (optional flags fixed) followed by a completing
+   run ends in the database of the uninterrupted run, the fold of the completion functions. *)
+Theorem C18_resume_same_db_registry :
+  forall (X XT : Type) (spec0 spec1 : regdb X -> regdb X)
+         (good0 good1 : regdb X -> option (regtok XT) -> Prop) (okx : X -> Prop)
+         (m0 m1 : @migration (regdb X) (regtok XT)),
+  (forall d, reg_ok X okx d -> good0 d None) ->
+  (forall d, reg_ok X okx d -> good1 d None) ->
+  resumable_at (fun _ => spec0) (fun _ => good0) (reg_ok X okx) 0 m0 ->
+  resumable_at (fun _ => spec1) (fun _ => good1) (reg_ok X okx) 1 m1 ->
+  forall (fuel : nat) (enabled : N) (bs : list ((hs_env * sdl_env) * boot))
+         (eh_ref : hs_env) (es_ref : sdl_env) (eh_fin : hs_env) (es_fin : sdl_env)
+         (s0 : @pstate (regdb X) (regtok XT)) st_ref st_fin,
+  reg_ok X okx (pdb s0) -> (forall j, lookup (inter s0) j = None) ->
+  Forall (fun eb => b_enabled (snd eb) = enabled) bs ->
+  run_boot (node_registry m0 m1 eh_ref es_ref) fuel enabled no_intr s0 = (st_ref, ROk) ->
+  run_boot (node_registry m0 m1 eh_fin es_fin) fuel enabled no_intr
+           (run_schedule_v fuel (map (fun eb => (node_registry m0 m1 (fst (fst eb)) (snd (fst eb)), snd eb)) bs) s0)
+    = (st_fin, ROk) ->
+  let T := target_version (node_registry m0 m1 eh_ref es_ref) enabled in
+  pdb (ms_p st_fin) = pdb (ms_p st_ref) /\
+  pdb (ms_p st_ref) = fold_left (fun d i => reg_spec X spec0 spec1 i d) (bits_of (vdiff T (cur s0))) (pdb s0) /\
+  bits_of (vdiff T (cur (ms_p st_fin))) = [] /\
+  bits_of (vdiff T (cur (ms_p st_ref))) = [].
+Proof. exact resume_same_db_registry_lemma. Qed.
+Print Assumptions C18_resume_same_db_registry.
+
 (* ---------------------------------------------------------------------------------------- *)
 (* Non-vacuity and the witnesses that the hypotheses are needed (all by computation).        *)
 (* ---------------------------------------------------------------------------------------- *)
@@ -355,3 +562,120 @@ Example io_error_instance :
   snd (run_boot [script 3 false] 20 0 no_intr (ms_p st)) = ROk /\
   pdb (ms_p (fst (run_boot [script 3 false] 20 0 no_intr (ms_p st)))) = 3%N.
 Proof. vm_compute. repeat split; reflexivity. Qed.
+
+(* ---------------------------------------------------------------------------------------- *)
+(* statedifflength / headstate at batch granularity: the hypotheses are satisfiable, the      *)
+(* schedules are non-trivial, and the safety hypotheses are needed (all by computation).      *)
+(* ---------------------------------------------------------------------------------------- *)
+Definition sb (l : N) : option sblock := Some {| s_len := l; s_sdl := 0 |}.
+Definition sdb7 : sdb := [None; None; sb 4; sb 2; sb 0; sb 9; sb 1].
+(* cancelled with checkpoint 4 after two batches committed out of order; a crash after one batch;
+   a stage error after a batch; then a completing run with two batches *)
+Definition sdl_sched : list sdl_attempt :=
+  [ {| sa_batches := [[3]; [2]]; sa_end := SECheckpoint 4 |};
+    {| sa_batches := [[5]]; sa_end := SECrash |};
+    {| sa_batches := [[6]; []]; sa_end := SEError |};
+    {| sa_batches := [[4; 6]; [5]]; sa_end := SEDone |} ].
+Example sdl_schedule_instance :
+  sdl_wf sdb7 = true /\ sdl_attempts_ok (sdl_init sdb7 0) sdl_sched = true /\
+  let s := sdl_run (sdl_init sdb7 0) sdl_sched in
+  sp_applied s = true /\ sp_db s = sdl_complete sdb7 /\
+  sp_db s = sp_db (sdl_apply (sdl_init sdb7 0) (sdl_uninterrupted 0 sdb7)) /\
+  sp_db s <> sdb7 /\
+  (* the checkpoint stored after the first attempt, and kept by the crash and the error *)
+  map sp_ck [sdl_run (sdl_init sdb7 0) (firstn 1 sdl_sched); sdl_run (sdl_init sdb7 0) (firstn 2 sdl_sched);
+             sdl_run (sdl_init sdb7 0) (firstn 3 sdl_sched)] = [4; 4; 4].
+Proof. vm_compute. repeat split; try reflexivity. discriminate. Qed.
+
+(* attempts the code cannot produce are rejected: a checkpoint beyond a block that no committed
+   batch holds; a batch with a pruned block; "done" with a block missing *)
+Example sdl_unproducible_attempts :
+  sdl_attempt_ok 0 sdb7 {| sa_batches := [[2]]; sa_end := SECheckpoint 4 |} = false /\
+  sdl_attempt_ok 0 sdb7 {| sa_batches := [[1; 2]]; sa_end := SECrash |} = false /\
+  sdl_attempt_ok 0 sdb7 {| sa_batches := [[2; 3; 4; 5]]; sa_end := SEDone |} = false.
+Proof. vm_compute. repeat split; reflexivity. Qed.
+
+(* the hypothesis sdl_ck_ok of C18_sdl_data_preserved is needed: started from a stored checkpoint
+   that lies beyond an unfilled block (what "checkpoint past the failed block" or "stale
+   checkpoint" produce), a producible run returns (nil, nil) and leaves block 2 with length 0 *)
+Example C18_sdl_checkpoint_safety_needed :
+  sdl_ck_ok sdb7 3 = false /\
+  let a := sdl_uninterrupted 3 sdb7 in
+  sdl_attempt_ok 3 sdb7 a = true /\ sa_end a = SEDone /\
+  sdl_done (sdl_commits sdb7 (sa_batches a)) = false.
+Proof. vm_compute. repeat split; reflexivity. Qed.
+
+Definition hrow_ (a : N) (c n h : option N) : hrow :=
+  {| r_addr := a; r_class := c; r_nonce := n; r_height := h; r_contract := None |}.
+(* three contracts (one without a nonce entry) and an orphan nonce entry *)
+Definition hsdb4 : hsdb :=
+  [ hrow_ 1 (Some 7%N) (Some 3%N) (Some 0%N); hrow_ 2 (Some 7%N) None (Some 5%N);
+    hrow_ 3 (Some 8%N) (Some 1%N) (Some 2%N); hrow_ 9 None (Some 4%N) None ].
+(* cancelled after the first address; a crash after both remaining batches and the first
+   DeleteRange; then a completing run (nothing left to ingest, three DeleteRanges) *)
+Definition hs_sched : list hs_attempt :=
+  [ {| ha_batches := [[1%N]; []]; ha_wipes := 0; ha_end := HEInterrupted |};
+    {| ha_batches := [[3%N]; [2%N]]; ha_wipes := 1; ha_end := HECrash |};
+    {| ha_batches := [[]; []; []; []]; ha_wipes := 3; ha_end := HEDone |} ].
+Example headstate_schedule_instance :
+  hs_consistent hsdb4 = true /\ hs_ok hsdb4 = true /\ hs_attempts_ok (hs_init hsdb4) hs_sched = true /\
+  let s := hs_run (hs_init hsdb4) hs_sched in
+  hp_applied s = true /\ hp_db s = hs_complete hsdb4 /\
+  hp_db s = hp_db (hs_apply (hs_init hsdb4) (hs_uninterrupted hsdb4)) /\
+  hs_new_view (hp_db s) = [(1, (3, 7, Some 0)); (2, (0, 7, Some 5)); (3, (1, 8, Some 2))]%N /\
+  hs_new_view (hp_db s) = hs_legacy_view hsdb4 /\
+  map hp_tok [hs_run (hs_init hsdb4) (firstn 1 hs_sched); hs_run (hs_init hsdb4) (firstn 2 hs_sched)] = [true; true].
+Proof. vm_compute. repeat split; reflexivity. Qed.
+
+Example headstate_unproducible_attempts :
+  (* "done" although address 2 was never written; a DeleteRange before everything is migrated;
+     an interruption that skips address 1 *)
+  hs_attempt_ok hsdb4 {| ha_batches := [[1; 3]%N]; ha_wipes := 3; ha_end := HEDone |} = false /\
+  hs_attempt_ok hsdb4 {| ha_batches := [[1]%N]; ha_wipes := 1; ha_end := HECrash |} = false /\
+  hs_attempt_ok hsdb4 {| ha_batches := [[2]%N]; ha_wipes := 0; ha_end := HEInterrupted |} = false.
+Proof. vm_compute. repeat split; reflexivity. Qed.
+
+(* hs_ok is needed: a contract without a deployment height makes ingestAddress fail, so no
+   producible attempt ever returns (nil, nil) with it still to be migrated *)
+Example C18_headstate_ok_needed :
+  let db := [hrow_ 1 (Some 7%N) (Some 3%N) None] in
+  hs_ok db = false /\ hs_attempt_ok db (hs_uninterrupted db) = false /\
+  hs_attempt_ok db {| ha_batches := []; ha_wipes := 3; ha_end := HEDone |} = false.
+Proof. vm_compute. repeat split; reflexivity. Qed.
+
+(* the node registry instance: m0 a two-step migration on the rest of the database, m1 (optional,
+   enabled) prunes the first block like historyprunner does; environments that commit out of
+   order; a schedule with cancellations, crashes and I/O errors, every start with its own
+   environment; the completing run reaches the database of the uninterrupted run *)
+Definition m0x : @migration (regdb N) (regtok N) :=
+  {| mig_optional := false;
+     mig_step := fun d t c =>
+       let p := match t with Some (TX n) => n | _ => 0%N end in
+       if c then (d, Suspended (TX p))
+       else let d' := {| g_x := N.max (g_x d) (p + 1); g_hs := g_hs d; g_sd := g_sd d |} in
+            if N.leb 2 (p + 1) then (d', Done) else (d', Suspended (TX (p + 1)%N)) |}.
+Definition m1x : @migration (regdb N) (regtok N) :=
+  {| mig_optional := true;
+     mig_step := fun d t c =>
+       ({| g_x := g_x d; g_hs := g_hs d; g_sd := match g_sd d with _ :: r => None :: r | [] => [] end |}, Done) |}.
+Definition ehA : hs_env := fun _ hi => ([[2%N]; [1%N]], 1).
+Definition ehB : hs_env := fun _ hi => ([[3%N; 1%N]], 0).
+Definition esA : sdl_env := fun _ s => ([[S s]; [s]], 1).
+Definition esB : sdl_env := fun _ s => ([[s + 3; s + 2]], 0).
+Definition reg0 : @pstate (regdb N) (regtok N) :=
+  {| cur := 0; last := 0; inter := []; pdb := {| g_x := 0%N; g_hs := hsdb4; g_sd := [sb 4; sb 2; sb 0; sb 9; sb 1] |} |}.
+Example registry_resume_instance :
+  let reg := node_registry m0x m1x in
+  let bs := [ ((ehA, esA), {| b_enabled := 6; b_cancel := cancel_after 4; b_crash := None |});
+              ((ehB, esB), {| b_enabled := 6; b_cancel := no_intr; b_crash := Some 3 |});
+              ((ehA, esB), {| b_enabled := 6; b_cancel := io_error_after 2; b_crash := None |});
+              ((ehB, esA), {| b_enabled := 6; b_cancel := cancel_after 5; b_crash := Some 4 |});
+              ((ehA, esA), {| b_enabled := 6; b_cancel := cancel_after 3; b_crash := None |}) ] in
+  let mid := run_schedule_v 40 (map (fun eb => (reg (fst (fst eb)) (snd (fst eb)), snd eb)) bs) reg0 in
+  let fin := run_boot (reg ehB esB) 40 6 no_intr mid in
+  let ref := run_boot (reg ehA esA) 40 6 no_intr reg0 in
+  snd fin = ROk /\ snd ref = ROk /\ pdb (ms_p (fst fin)) = pdb (ms_p (fst ref)) /\
+  cur (ms_p (fst fin)) = 15%N /\ mid <> reg0 /\ cur mid <> 15%N /\
+  g_sd (pdb (ms_p (fst fin))) = sdl_complete (None :: [sb 2; sb 0; sb 9; sb 1]) /\
+  g_hs (pdb (ms_p (fst fin))) = hs_complete hsdb4.
+Proof. vm_compute. repeat split; try reflexivity; discriminate. Qed.
